@@ -3,7 +3,7 @@
 usage: confirm_seeded.py <ID> [<ID> ...]   (reads /tmp/seed_out/<ID>/m*/)"""
 import json, os, subprocess, sys, shutil, time
 
-WT = "/tmp/confirm_wt"
+WT = os.environ.get("CONFIRM_WT", "/tmp/confirm_wt")
 SEED_OUT = os.environ.get("SEED_OUT", "/tmp/seed_out")
 PREFIX = os.environ.get("SEED_PREFIX", "")
 ENV = dict(os.environ, CARGO_NET_OFFLINE="true")
